@@ -3,6 +3,7 @@ import Proofs.DkgFlags
 import Proofs.DkgOnce
 import Proofs.DkgHonest
 import Proofs.DkgBlame
+import Proofs.DkgJointAgree
 
 /-! # C08 — DKG qualification is fair: honest never blamed, bad dealing never accepted
 
@@ -366,6 +367,18 @@ theorem blame_targets (s : St O) (e : Dl) (A : Nat) (hA : A ≠ s.dealer) :
     (s.me ≠ s.dealer → s.complaintsTimeout = false → recvAt s A = false → NoBlame A (stepOuts s (zCmpl A s.dealer))) :=
   ⟨step_noblame_other s e A hA, fun hme hct hr => step_noblame_complaint s A hA hme hct hr⟩
 
+open Proofs.DkgCommute Proofs.DkgAgree in
+/-- **inside Joint-Feldman** every broadcast reaches all `n` instances: the instance of dealer `d` at an honest
+    participant also sees the other broadcasts of an honest participant `A` (its vector, its answers, its complaints
+    against other dealers). They draw no blame and change nothing (`irrelevant_honest_noblame`, `irrelevant_noop`), so a
+    round of the instance never blames `A`, under the same hypothesis on `A`'s complaints against `d` as in the
+    single-instance theorem -/
+theorem joint_round_never_blames_honest (s : St O) (inv : Inv s) (A : Nat) (hA : A ≠ s.dealer) (hAme : A ≠ s.me)
+    (hd : s.dealer < 256) (l : List Dl) (hon : HonestFrom A s.size s.complaintsTimeout l)
+    (hl : stream (relevantOnly A s.dealer l) (A, false) = [] ∨
+      (stream (relevantOnly A s.dealer l) (A, false) = [zCmpl A s.dealer] ∧ recvAt s A = false ∧ s.complaintsTimeout = false)) :
+    NoBlame A (runOuts s l) := run_noblame_joint s inv A hA hAme hd l hon hl
+
 /-! ### non-vacuity of the honest-dealer theorem: a concrete run that meets every hypothesis -/
 
 section NonVacuity
@@ -470,3 +483,4 @@ end Props.C08
 #print axioms Props.C08.honest_never_blamed_by_honest
 #print axioms Props.C08.honest_broadcasts_one_complaint
 #print axioms Props.C08.blame_targets
+#print axioms Props.C08.joint_round_never_blames_honest
